@@ -118,6 +118,12 @@ pub fn parse_numeric(input: &str, field_name: &str) -> Result<String, ParseError
 
 /// Parse SWIFT digits format (digits only, used for numeric fields)
 pub fn parse_swift_digits(input: &str, field_name: &str) -> Result<String, ParseError> {
+    // every numeric component (n, !n) holds at least one digit
+    if input.is_empty() {
+        return Err(ParseError::InvalidFormat {
+            message: format!("{} must not be empty", field_name),
+        });
+    }
     if !input.chars().all(|c| c.is_ascii_digit()) {
         return Err(ParseError::InvalidFormat {
             message: format!("{} must contain only digits", field_name),
@@ -665,15 +671,8 @@ pub fn parse_reference(input: &str) -> Result<String, ParseError> {
 pub fn split_at_first(input: &str, delimiter: char) -> (String, Option<String>) {
     if let Some(pos) = input.find(delimiter) {
         let (first, rest) = input.split_at(pos);
-        let rest = &rest[1..]; // Skip the delimiter
-        (
-            first.to_string(),
-            if rest.is_empty() {
-                None
-            } else {
-                Some(rest.to_string())
-            },
-        )
+        // Skip the delimiter; an empty remainder stays visible to the caller ("1/" is not "1")
+        (first.to_string(), Some(rest[1..].to_string()))
     } else {
         (input.to_string(), None)
     }
